@@ -624,6 +624,10 @@ Value Search::search(Position& position, Depth depth, Value alpha, Value beta,
         }
     }
 
+    // every move was futility-pruned: the node fails low, nothing was proven
+    // (returning -VALUE_INFINITE would be read as a mate score by the parent)
+    if (bestValue == -VALUE_INFINITE) bestValue = alpha;
+
     if (best_move == NO_MOVE)
     {
         best_move = begin[0];
